@@ -40,6 +40,8 @@ pub struct Cli {
     pub jobs: usize,
     pub time_cap_s: f64,
     pub root: PathBuf,
+    /// where evidence/ and replays/ are written (VERIF_OUT, default: root)
+    pub out: PathBuf,
 }
 
 fn verif_root() -> PathBuf {
@@ -136,6 +138,7 @@ impl Cli {
             jobs,
             time_cap_s,
             root: verif_root(),
+            out: std::env::var("VERIF_OUT").map(PathBuf::from).unwrap_or_else(|_| verif_root()),
         }
     }
 }
@@ -554,7 +557,7 @@ impl Run {
             }
         }
 
-        let replay_dir = self.cli.root.join("replays");
+        let replay_dir = self.cli.out.join("replays");
         let _ = fs::create_dir_all(&replay_dir);
         let mut lines = Vec::new();
         for v in &unlisted {
@@ -675,7 +678,7 @@ impl Run {
             "wall_s" => (wall * 100.0).round() / 100.0,
             "violations" => J::Int(unlisted.len() as i64)
         };
-        let ev_dir = self.cli.root.join("evidence");
+        let ev_dir = self.cli.out.join("evidence");
         let _ = fs::create_dir_all(&ev_dir);
         let path = match &self.cli.part {
             Some(p) => ev_dir.join(format!(".part-{}-{}.json", id_u, p)),
